@@ -69,6 +69,31 @@ def design_band_roundtrip(bands: Dict[str, List[int]], other: int) -> bool:
     return convert_design_band(deepcopy(y)) == y and convert_back_design_band(deepcopy(y)) == ref
 
 
+def two_roadms_roundtrip(d1: int, d2: int, f1: int, f2: int, has1: bool, has2: bool, t1: int, t2: int) -> bool:
+    """
+    pre: 0 <= d1 <= 2 and 0 <= d2 <= 2 and 0 <= t1 <= 2 and 0 <= t2 <= 2
+    post: __return__
+    """
+    # two ROADMs each with their own per-degree design bands and per-degree power targets (degree names and equalisation
+    # types symbolic, values incl. 0): nothing of one ROADM may show up in the other, both directions, idempotent
+    DEG = ['east', 'west', 'north']
+    TYP = ['per_degree_pch_out_db', 'per_degree_psd_out_mWperGHz', 'per_degree_psd_out_mWperSlotWidth']
+    els = []
+    for uid, has, d, f, t in (('r1', has1, d1, f1, t1), ('r2', has2, d2, f2, t2)):
+        params = {'x': 1}
+        if has:
+            params['per_degree_design_bands'] = {DEG[d]: [{'f_min': f, 'f_max': f + 1}]}
+            params[TYP[t]] = {DEG[d]: f}
+        els.append({'uid': uid, 'type': 'Roadm', 'params': params})
+    doc = _topo(els)
+    ref = deepcopy(doc)
+    y = convert_degree(convert_design_band(deepcopy(doc)))
+    if convert_degree(convert_design_band(deepcopy(y))) != y:
+        return False
+    back = convert_back_degree(convert_back_design_band(deepcopy(y)))
+    return back == ref
+
+
 def loss_coef_roundtrip(freqs: List[int], vals: List[int], scalar: Optional[int]) -> bool:
     """
     pre: len(freqs) == len(vals) and 1 <= len(freqs) <= 3
